@@ -24,7 +24,7 @@ CHECKS = {
   text="Part (a): exhaustive byte-level enumeration against the three frame-decode entry points (all strings <= 2 bytes, 60 seed frames x every truncation / single-byte mutation / length-field rewrite incl. cap, cap+1, 2^31, 2^32-1 with a 1 MiB allocation bound, all 65536 PType x SType pairs, all data frames with any 1-2 byte body), oracle = E37 accept rule + E5 body verdict + identical error to every holder on every call. Part (b): on a real Selected connection every segmentation (<= 2 cuts, all-singletons) and every in-frame / between-frame delay around T8 of short frame streams; hostile length fields.",
   note="Mutations beyond two bytes are not explored; the concurrent first-call of the lazy decode is covered by C12's race pass. Trusted: ref/e37, ref/e5, synctest, sim."),
  "C05": dict(engine="E3-sched + explicit-state graph search", cat="model_checking", tech="explicit-state BFS over the real supervisor's step/commit functions (state = replayed action history, canonical-key merging) + " + E3,
-  text="Layer 1: breadth-first closure (to the stated depth) of all transport-producible action sequences on the REAL supervisor (commits, async injects, requestClose, step, commits landing between step's load and store), oracle after every action = reference in which a state change takes effect exactly when its cause does. Layer 3: every schedule with <= B departures of system scenarios (peer connect/select/deselect/drop vs Close/Open vs T7 clock) on the real instrumented hsmsss connection, invariants evaluated at every scheduling point; one scenario on a real passive secs1 connection (connect vs Close). After the bounded DFS every scenario is also run once per thread with that thread starved (scheduled only when nothing else can run).",
+  text="Layer 1: breadth-first closure (to the stated depth) of all transport-producible action sequences on the REAL supervisor (commits, async injects, requestClose, step, commits landing between step's load and store), oracle after every action = reference in which a state change takes effect exactly when its cause does. Layer 3: every schedule with <= B departures of system scenarios (peer connect/select/deselect/drop vs Close/Open vs T7 clock) on the real instrumented hsmsss connection, invariants evaluated at every scheduling point; one scenario on a real passive secs1 connection (connect vs Close). After the bounded DFS every scenario is also run once per thread with that thread starved (scheduled only when nothing else can run). Layer 1 also replays every history with a stalled notification handler (buffer of 1 and 2 entries) against the coalescing contract.",
   note="Bounded: graph depth and departure bound are reported per run; schedules beyond the bound and scheduling points the instrumenter does not know are not explored. The genuine defects this check found (F5, F6, F7, F8) are repaired in /repo (fix: 68e8d01, 28b19f3, a7c29a2, 3fe639a, e7f57d6); no known finding is left for this property."),
  "C08": dict(engine="E2-bubble + E3-sched", cat="model_checking", tech=E2 + "; schedule part (library-initiated control transactions ending on T6): " + E3,
   text="Tree search: every history of peer frames of length <= D over a 16-symbol alphabet (all control requests/responses, orphan responses, data, malformed frames, second connect / reconnect) replayed on a fresh real hsmsss connection per history; after EVERY step the exact FIFO of frames the library wrote, State(), handler deliveries and connection liveness are compared with a reference E37 responder; plus depth-1 over every malformed (SType 0..255 x PType x body) frame; passive/active(after and during select) x equip/host x session-id validation.",
@@ -33,34 +33,34 @@ CHECKS = {
   text="Exhaustive enumeration of messages (all ASCII strings <= 2 over 256 byte values and 3-4 over 19 grammar bytes; numeric vectors over all extremes; binary/boolean vectors; safe JIS-8 / localized text; all list trees <= 4-5 nodes; 18 legal headers) x all 54 strict-encoder option combinations through the real EncodeMessage/ParseStrict; plus every token sequence <= 4-5 over the 26-token alphabet (bare and in 4 seeding contexts): each accepted text re-encoded with all combinations and re-parsed.",
   note="Exhaustive only over the stated grid; localized text that Go %q escapes and lists with EmptyItem children are observed, not demanded; equality ignores NaN payload and LSH. The genuine defect this check found ('>' unescaped) is repaired in /repo (fix: commit 580939f)."),
  "C15": dict(engine="E1-enum", cat="exploration", tech=E1,
-  text="Exhaustive enumeration of the C01 item grid (boundary counts, all value patterns incl. numeric extremes), all list trees <= 5-6 nodes incl. EmptyItem children, depth chains and wide lists: sml.Encode compared byte-for-byte with ToSML; numeric/boolean/binary items parsed back with Parse and ParseStrict and matched against ref/e5 values.",
+  text="Exhaustive enumeration of the C01 item grid (boundary counts, all value patterns incl. numeric extremes), all list trees <= 5-6 nodes incl. EmptyItem children, depth chains and wide lists: sml.Encode compared byte-for-byte with ToSML; numeric/boolean/binary items parsed back with Parse and ParseStrict and matched against ref/e5 values. History independence: after each non-default rendering of the same item every default entry point still equals ToSML.",
   note="Exhaustive only over the stated grid; read-back not demanded for string items or lists with an EmptyItem. Trusted: ref/e5, refcmp."),
 }
 
 CHECKS.update({
  "C09": dict(engine="E2-bubble + E3-sched", cat="model_checking", tech=E2 + "; " + E3,
-  text="E2: full product (thorough; covering subset in quick) of roles x sends awaiting a reply {0,1,2} x a send blocked mid-write x queued fire-and-forget sends {0,1,3} x generation-ending event {peer close, reset, write timeout, Close+Open, linktest failure, T8 inside a frame, Separate.req} x refused re-dials x late reply for an old transaction x new sends, on a real hsmsss connection; every payload carries a token naming the generation that accepted it; oracle: generation 2's socket never carries a generation-1 token, every generation-1 waiter returns connection-closed / its own timeout promptly and never a reply, late replies never complete generation-2 sends. E3: every schedule with <= B departures of {sender pinned to generation 1, peer drop, reconnecting+selecting peer}.",
+  text="E2: full product (thorough; covering subset in quick) of roles x sends awaiting a reply {0,1,2} x a send blocked mid-write x queued fire-and-forget sends {0,1,3} x generation-ending event {peer close, reset, write timeout, Close+Open, linktest failure, T8 inside a frame, Separate.req} x refused re-dials x late reply for an old transaction x new sends, on a real hsmsss connection; every payload carries a token naming the generation that accepted it; oracle: generation 2's socket never carries a generation-1 token, every generation-1 waiter returns connection-closed / its own timeout promptly and never a reply, late replies never complete generation-2 sends. E3: every schedule with <= B departures of {sender pinned to generation 1, peer drop, reconnecting+selecting peer}. Slow-handler and stalled-peer families: waiting sends are released within 1 s of the end of the generation.",
   note="HSMS-SS by the full product; SECS-I by part checks/c09t (7 unfinished-message states of generation 1 x close/reset x roles on a real secs1 connection with an E4 peer: calls return promptly with a definite error, no byte of a generation-1 message on generation 2, a fresh send goes through). Bounded by the stated product and by the departure bound; exact timer ties outside E3's scenarios are not explored. Built on the instrumented tree so that a writer stalled mid-write (holding the write lock) does not wedge the bubble."),
  "C10": dict(engine="E2-bubble + E3-sched", cat="model_checking", tech=E2 + "; " + E3,
-  text="E2 tree search: every history of length <= D (quick 3, thorough 4) over {Open(background), Open(wait), Close, SendDataMessage, UpdateConfigOptions, dial answer accept/refuse/black-hole, peer connect/select/reject/close/stall, advance 100ms/3s}, each API call on its own goroutine, active and passive; after every step: no panic, each call within its documented virtual-time bound, Open-on-open = ErrAlreadyOpen without side effects; final phase per history: Close within the close timeout, idempotent re-Close, no dial/listen for 12 s, every socket and listener closed, no library goroutine, re-Open + select + round trip + Close works. The same tree search runs on a real SECS-I (secs1) connection, active+host and passive+equipment, with an independent E4 peer for the final round trip. E3: every schedule with <= B departures of {Close, Close, peer drop}, {Open, Close, Send}, {peer connect, Close}: no deadlock, documented return values, same leak checks.",
+  text="E2 tree search: every history of length <= D (quick 3, thorough 4) over {Open(background), Open(wait), Close, SendDataMessage, UpdateConfigOptions, dial answer accept/refuse/black-hole, peer connect/select/reject/close/stall, advance 100ms/3s}, each API call on its own goroutine, active and passive; after every step: no panic, each call within its documented virtual-time bound, Open-on-open = ErrAlreadyOpen without side effects; final phase per history: Close within the close timeout, idempotent re-Close, no dial/listen for 12 s, every socket and listener closed, no library goroutine, re-Open + select + round trip + Close works. The same tree search runs on a real SECS-I (secs1) connection, active+host and passive+equipment, with an independent E4 peer for the final round trip. E3: every schedule with <= B departures of {Close, Close, peer drop}, {Open, Close, Send}, {peer connect, Close}: no deadlock, documented return values, same leak checks. The HSMS-SS tree search also starts from an established Selected session (histories <= D-1 incl. UpdateConfigOptions(WithWriteTimeout(0))); every call started in a history must have returned once the final Close has.",
   note="Black-holed dials are bounded by the configured connect timeout (an unbounded OS dial is outside the model); a SECS-I peer stall keeps a 64 KiB receive window (a zero-byte TCP window blocking a 1-byte write for ever is outside the model: SECS-I disables the core write timeout). The E3 overlaps are HSMS-SS only. State() after Close is C05's clause. Depth / departure bounds as stated."),
  "C11": dict(engine="E2-bubble + E1-enum", cat="model_checking", tech=E2 + " (fault enumeration); backoff step: " + E1,
-  text="Exhaustive fault enumeration on the real hsmsss connection in virtual time: a canonical session (TCP up, select, data both ways, linktest) is cut after every byte of both stream directions by {peer close, reset, stall, mute}, on the first and on the re-established link, both roles, 3 backoff configurations, 2 timer sets and 0/1/2/5 refused dials or failed listens; special scenarios: select rejection, T7, cold start, double drop, Close mid-backoff. Oracle: reference predicts exactly when the link is given up and by which timer, every dial time per the documented backoff, Reconnecting/Reconnects, a working Selected session on the new link/listener, silence for 10*T5 after Close. The pure backoff step is checked over the full (initial, multiplier, T5, 0..12 failures) grid.",
+  text="Exhaustive fault enumeration on the real hsmsss connection in virtual time: a canonical session (TCP up, select, data both ways, linktest) is cut after every byte of both stream directions by {peer close, reset, stall, mute}, on the first and on the re-established link, both roles, 3 backoff configurations, 2 timer sets and 0/1/2/5 refused dials or failed listens; special scenarios: select rejection, T7, cold start, double drop, Close mid-backoff. Oracle: reference predicts exactly when the link is given up and by which timer, every dial time per the documented backoff, Reconnecting/Reconnects, a working Selected session on the new link/listener, silence for 10*T5 after Close. The pure backoff step is checked over the full (initial, multiplier, T5, 0..12 failures) grid. Long outages: 70 refused attempts in a row under three backoff configurations.",
   note="One canonical 64+64-byte session per role on HSMS-SS (every byte offset); on SECS-I (part checks/c11t) 8 cut positions of a canonical block exchange x {close, reset} x refusals x backoff configurations, both roles, same oracle; failed dials fail instantly; timers never tied (E3's job). Trusted: synctest, sim, ref/backoff."),
  "C12": dict(engine="E1-enum + E3-sched + race pass", cat="model_checking", tech=E1 + "; lazy first-use paths: " + E3 + "; supporting free-running -race pass for the memory-model clause",
-  text="Exhaustive enumeration, one case per (subject, mutation target): every concrete item type x element counts x every slice-taking constructor shape; secs2.Decode, DecodeHSMSMessage, DecodeHSMSPayload; constructed, derived and re-stamped data messages; control messages. Every slice that went in and every slice/array that came out (incl. spare capacity behind append results) is scribbled over; oracle: byte-identity of a deep transcript of every public accessor/serialiser before and after. Lazy decode/encode happens once whichever of six sharers calls first. Race pass: 54 subjects x 8 goroutines performing the full transcript as the concurrent first observation under the race detector.",
+  text="Exhaustive enumeration, one case per (subject, mutation target): every concrete item type x element counts x every slice-taking constructor shape; secs2.Decode, DecodeHSMSMessage, DecodeHSMSPayload; constructed, derived and re-stamped data messages; control messages. Every slice that went in and every slice/array that came out (incl. spare capacity behind append results) is scribbled over; oracle: byte-identity of a deep transcript of every public accessor/serialiser before and after. Lazy decode/encode happens once whichever of six sharers calls first. Every sharer's serialisation is identical before and after the first lazy decode, also for non-canonical raw bodies. Race pass: 54 subjects x 8 goroutines performing the full transcript as the concurrent first observation under the race detector.",
   note="DecodeOwned* excluded (ownership transfer by contract). The 'without data races' clause has race-detector evidence over sampled schedules only (a cooperative scheduler cannot see memory-model races); the logical at-most-once clause is enumerated sequentially. Exhaustive only over the stated grid."),
  "C16": dict(engine="E1-enum", cat="exploration", tech=E1,
   text="Exhaustive enumeration on the 38 real constructors/shortcuts (incl. invalid byte sizes) of ALL argument lists of length 0,1,2 (thorough: 3 over a sub-alphabet) over a 416-symbol alphabet (every width-boundary value in every Go integer type, float specials, 57 numeric/non-numeric strings, unsupported kinds, named types, slices), compared with ref/clamp (documented outcome: exact, nearest bound, deferred error) and the universal never-wrapped / count / order invariants; 5041 errored items (direct, nested to depth 3, shared, oversize) are Equal to nothing and refused by every message constructor and every send entry point of the test endpoint.",
   note="Exhaustive only over the stated alphabet and list lengths. Where the docs are silent either a deferred error or exactly the listed value is accepted. A typed-nil list child panicking on use is test-pinned library behaviour (counted, not flagged). The live-connection half of 'never reaches the wire' relies on the constructors' refusal (no message object exists to send)."),
  "C19": dict(engine="E2-bubble + E1-enum", cat="model_checking", tech=E2 + "; failure-accounting functions: " + E1,
-  text="Explicit-state tree search over every peer script of length <= threshold+2 (thorough +3) over 8 per-round peer/application actions x threshold {1,2,3} x suppression on/off x passive/active, each replayed on a fresh real hsmsss connection and compared with a reference timeline: exact virtual time of every Linktest.req and of the disconnect, linktest counters, probe frame format, 'no probe within one interval of traffic or while a reply is outstanding'. The two pure decision functions are compared on all 3750 rows of their abstract domain; every history of <= 6 (thorough 8) probe rounds x threshold 1..4 x suppression is folded through a faithful copy of runLinktest's failure branch.",
+  text="Explicit-state tree search over every peer script of length <= threshold+2 (thorough +3) over 10 per-round peer / application / third-party actions x threshold {1,2,3} x suppression on/off x passive/active, each replayed on a fresh real hsmsss connection and compared with a reference timeline: exact virtual time of every Linktest.req and of the disconnect, linktest counters, probe frame format, 'no probe within one interval of traffic or while a reply is outstanding'. The two pure decision functions are compared on all 3750 rows of their abstract domain; every history of <= 6 (thorough 8) probe rounds x threshold 1..4 x suppression is folded through a faithful copy of runLinktest's failure branch.",
   note="Bounded script depth and thresholds; no exact frame/timer ties (function level only). Trusted: ref/linktest (from doc comments), synctest, sim."),
 })
 
 CHECKS.update({
  "C06": dict(engine="E2-bubble + E1-enum + E3-sched", cat="model_checking", tech=E2 + "; schedule part: " + E3,
-  text="Tree search: Selected hsmsss connection (passive/active x host/equipment, two data handlers, T3 3 s), n <= 2 (thorough <= 3) overlapping reply-expected sends; every peer history of length <= 3 (thorough <= 4) over, per open transaction: reply, duplicate reply, odd-function W=0 message, W and non-W primary with colliding system bytes, Reject.req reason {1..5,255}, Select/Deselect/Linktest.rsp with colliding system bytes, ctx cancel; plus unsolicited secondary, T3-1ms, +2ms, peerClose, Close. After every event each call's return value and virtual return time, the per-handler delivery logs and the library's frames are compared with a reference map of open transactions (own reply byte-identical, RejectError reason, ErrT3Timeout at exactly write+T3, ErrConnClosed, ctx error; never (nil,nil); one recipient per inbound data frame). Plus 2^16+10 consecutive system-bytes draws read off the wire.",
+  text="Tree search: Selected hsmsss connection (passive/active x host/equipment, two data handlers, T3 3 s), n <= 2 (thorough <= 3) overlapping reply-expected sends; every peer history of length <= 3 (thorough <= 4) over, per open transaction: reply, duplicate reply, odd-function W=0 message, W and non-W primary with colliding system bytes, Reject.req reason {1..5,255}, Select/Deselect/Linktest.rsp with colliding system bytes, ctx cancel; plus unsolicited secondary, T3-1ms, +2ms, peerClose, Close. After every event each call's return value and virtual return time, the per-handler delivery logs and the library's frames are compared with a reference map of open transactions (own reply byte-identical, RejectError reason, ErrT3Timeout at exactly write+T3, ErrConnClosed, ctx error; never (nil,nil); one recipient per inbound data frame). Plus 2^16+10 consecutive system-bytes draws read off the wire. The same for 2000 draws with the counter positioned (build-tag hook) just below 2^24, 2^31 and the 2^32 wrap.",
   note="Depth-bounded; events separated by quiescence (exact ties of reply/T3/cancel are not enumerated by this part). HSMS-SS. The genuine defects this check found are repaired in /repo: a control response colliding with an open data transaction completing it with (nil,nil) (fix: 0542585), the same stray costing the transaction its reply (2f35c30), and a reply that ties with T3 / teardown / cancellation reaching nobody (2cc474c); the last two were found by the E3 part."),
  "C20": dict(engine="E2-bubble + E3-sched", cat="model_checking", tech=E2 + "; schedule part: " + E3,
   text="Tree search: every history of length <= 3 over a 23-symbol alphabet and <= 4 over 14 symbols (thorough deeper), with at most 3 sends: the 5 send entry points, stall+write-timeout and reset-under-blocked-write errors, reply / Reject / cancel / T3, drop, reconnect, refused dials, Deselect/Select, inbound data, malformed frames, Close. At every quiescent point all eight metrics are compared with a reference ledger of the documented per-outcome vectors and with the peer's own count of data frames received over all TCP generations: in-flight >= 0 and equal to waiting sends, Reconnecting > 0 exactly while the backoff loop runs, 0 after Close.",
@@ -69,7 +69,7 @@ CHECKS.update({
 
 CHECKS.update({
  "C17": dict(engine="E2-bubble + E1-enum", cat="model_checking", tech=E2 + "; assembler: explicit-state tree search on the real assembler.accept with an injected clock",
-  text="Outbound: every encoded body length 0..733 x role x device ids {0,1,0x7FFF} x header grid sent by a real secs1 connection to an independent SEMI E4 reference peer; every transmission compared byte for byte with ref/e4 (block size <= 244, numbering 1..N, E-bit, R-bit, device id, checksum, concatenated body = SECS-II encoding). Inbound (a): all block histories of depth <= 6/7 over 14 symbols (valid next, duplicate, skipped number, changed stream/function/W/system bytes, wrong device, wrong direction, block 0 with/without E, fresh first block, previous number with E, T4 gap) on the real assembler with an injected clock: exact reference (E4 9.4.4), rule-free justification of every delivery, clean message after every prefix. Inbound (b): line level depth 3/4 over 19 symbols incl. bad checksum, bad length byte, truncated block, ENQ+silence: EOT/ACK/NAK, deliveries, State(), socket stays open.",
+  text="Outbound: every encoded body length 0..733 x role x device ids {0,1,0x7FFF} x header grid sent by a real secs1 connection to an independent SEMI E4 reference peer; every transmission compared byte for byte with ref/e4 (block size <= 244, numbering 1..N, E-bit, R-bit, device id, checksum, concatenated body = SECS-II encoding). The E4 size limit: 32767 blocks sent and numbered, one byte more never reaches the line. Inbound (a): all block histories of depth <= 6/7 over 14 symbols (valid next, duplicate, skipped number, changed stream/function/W/system bytes, wrong device, wrong direction, block 0 with/without E, fresh first block, previous number with E, T4 gap) on the real assembler with an injected clock: exact reference (E4 9.4.4), rule-free justification of every delivery, clean message after every prefix. Inbound (b): line level depth 3/4 over 19 symbols incl. bad checksum, bad length byte, truncated block, ENQ+silence: EOT/ACK/NAK, deliveries, State(), socket stays open.",
   note="Bounded by the stated depths; the receive rule for an out-of-sequence block (abandon the partial, then treat as a first block) is taken from assembler.go's doc comments; no interleaved multi-block transactions. Trusted: ref/e4, peer/e4, synctest, sim."),
  "C18": dict(engine="E2-bubble", cat="model_checking", tech=E2 + " (fault enumeration through a protocol-aware middlebox between two real secs1 endpoints)",
   text="Two real secs1 connections (equipment/master, host/slave) in one bubble joined by a middlebox that forwards line units (handshake characters / block transmissions) under a fault plan: 54 scenarios {E->H, H->E, both at once} x {1,2,3 blocks} x RTY {0,1,3} x W, each sending two token-carrying messages; all single-fault plans over the first 12 units per direction (drop, replace by ENQ/EOT/ACK/NAK/0x00, flip a header/body/checksum byte, truncate, delay T1+d / T2+d) and all two-fault plans on a scenario subset. Oracle: every send that returned nil is delivered exactly once and intact, in order per direction; nothing delivered twice or altered; each block attempted at most RTY+1 times, then the send fails and the link recovers; contention resolves master-first; every call returns before the virtual horizon.",
@@ -78,7 +78,7 @@ CHECKS.update({
 
 CHECKS.update({
  "C07": dict(engine="E2-bubble + E3-sched", cat="model_checking", tech=E2 + "; schedule part: " + E3,
-  text="Exhaustive enumeration of the stated finite families of histories on a real hsmsss connection in virtual time: every not-selected situation (13 active / 11 passive: never opened, connecting, refused dial, connected-not-selected, deselected, select rejected, separated, T6/T7 expiry, in backoff, between generations, closed, reopened) x every data-sending entry point; every connected-not-selected situation x inbound data frames over kinds, session ids and system bytes; every <= 2-cut (thorough <= 3) segmentation of the select-plus-data streams incl. simultaneous select; the queued-behind-a-blocked-write-then-deselected scenario. Each step compared with exact expected frames, errors, drop-counter deltas, deliveries and link state.",
+  text="Exhaustive enumeration of the stated finite families of histories on a real hsmsss connection in virtual time: every not-selected situation (13 active / 11 passive: never opened, connecting, refused dial, connected-not-selected, deselected, select rejected, separated, T6/T7 expiry, in backoff, between generations, closed, reopened) x every data-sending entry point; every connected-not-selected situation x inbound data frames over kinds, session ids and system bytes; every <= 2-cut (thorough <= 3) segmentation of the select-plus-data streams incl. simultaneous select; the queued-behind-a-blocked-write-then-deselected scenario. Bursts of 3..200 (thorough 1000) data frames in one segment at a not-selected library (peer reading / window closed): one Reject.req(4) each. Each step compared with exact expected frames, errors, drop-counter deltas, deliveries and link state.",
   note="Exhaustive only over the listed histories, roles and one timer configuration; the E3 part (checks/c07s) adds the schedule dimension: data pipelined behind Select.req/Select.rsp (3 write groupings x 2 roles) and a data send racing Deselect/Select/Separate.req (sync, async), every schedule with <= 1 departure (thorough 2) around two canonical orders (default; library-first with sticky departures), State() must not leave Selected without a cause, exactly one of {frame on the wire, nil} / {nothing on the wire, not-selected error, one drop}. Trusted: synctest, sim, expected frames written from E37."),
  "C14": dict(engine="E1-enum + race pass", cat="exploration", tech=E1 + "; resource families in ulimit-bounded worker processes; supporting -race pass",
   text="Exhaustive enumeration of all token sequences of length <= 4 (quick) / <= 5 plus type-led length 6 (thorough) over a 26-token SML alphabet and all byte strings of length <= 2 (256 values) and 3 (64 bytes), plain and behind 'S1F1 W <', through every public parse entry point, strict and non-strict: no panic; messages xor error; message validity; ParseError offset in range with line/column recomputed from the input; reused parser equals fresh parser. Resource families (nesting depth to 4e6, size hints to 2^63 for all 16 item types, unterminated strings/numbers/comments, n messages) run one point per worker process under ulimit -v: exit status 0, allocation bound, at most quadratic growth of TotalAlloc/Mallocs. Shared state: go/ast scan of package-level vars, concurrent == sequential over a 227-text corpus, free-running -race pass.",
